@@ -2,6 +2,7 @@ package pub
 
 import (
 	"context"
+	"encoding/json"
 	"fmt"
 	"github.com/go-fed/activity/streams"
 	"github.com/go-fed/activity/streams/vocab"
@@ -332,6 +333,18 @@ func (w SocialWrappedCallbacks) update(c context.Context, a vocab.ActivityStream
 			if _, ok := m[k]; v == nil && ok {
 				delete(m, k)
 			}
+		}
+		// Serialize yields Go values (a map[string]string for a language
+		// map, an int for a count) where ToType expects what encoding/json
+		// yields: pass the merged value through JSON, or those members are
+		// not recognized and are written back under other names.
+		b, err := json.Marshal(m)
+		if err != nil {
+			return err
+		}
+		m = nil
+		if err = json.Unmarshal(b, &m); err != nil {
+			return err
 		}
 		newT, err := streams.ToType(c, m)
 		if err != nil {
